@@ -62,6 +62,19 @@ class Tensor(SymArray):
     def softmax(self, dim):
         return softmax(self, dim)
 
+    def unbind(self, dim=0):
+        a = _np.moveaxis(_np.asarray(self), dim, 0)
+        return tuple(T(x) if isinstance(x, _np.ndarray) else x for x in a)
+
+    def unsqueeze(self, dim):
+        return T(_np.expand_dims(_np.asarray(self), dim))
+
+    def squeeze(self, dim=None):
+        return T(_np.squeeze(_np.asarray(self), axis=dim))
+
+    def transpose(self, a, b):
+        return T(_np.swapaxes(_np.asarray(self), a, b))
+
     def size(self, d=None):
         return self.shape if d is None else self.shape[d]
 
@@ -128,8 +141,30 @@ class TorchFacade:
     linalg = _Linalg()
 
     def __getattr__(self, n):
-        import torch
-        return getattr(torch, n)
+        import torch, types
+        obj = getattr(torch, n)
+        if isinstance(obj, (type, types.ModuleType)) or not callable(obj):
+            return obj
+
+        def guarded(*a, **k):
+            def symbolic_arg(x):
+                if isinstance(x, (Tensor, SymArray, SymReal, SymBool)):
+                    return True
+                if isinstance(x, _np.ndarray) and x.dtype == object:
+                    return True
+                if isinstance(x, (list, tuple)):
+                    return any(symbolic_arg(y) for y in x)
+                return False
+            if any(symbolic_arg(x) for x in list(a) + list(k.values())):
+                raise S.Unsupported('torch.%s is not modelled by the torch facade' % n)
+            return obj(*a, **k)
+        return guarded
+
+    def stack(self, tensors, dim=0):
+        return T(_np.stack([_np.asarray(t) for t in tensors], axis=dim))
+
+    def cat(self, tensors, dim=0):
+        return T(_np.concatenate([_np.asarray(t) for t in tensors], axis=dim))
 
     def tensor(self, x, dtype=None, **kw):
         if isinstance(x, (int, float, SymReal)):
